@@ -236,6 +236,148 @@ async fn run_one(sc: &Value, node: &Arc<Node>, listener: &TcpListener, sched: &A
     { let lg = sched.take_log(); json!({"results": results, "pending_after": pending, "notes": notes, "requests_seen_by_peer": requests_seen, "hook_log": lg.len(), "hook_log_full": if std::env::var("VERIF_DEBUG").is_ok() { json!(lg) } else { json!(null) }}) }
 }
 
+/// B3 for C17: free-running concurrent calls (no forced schedule) against a peer with a seeded reply policy; the totally ordered
+/// log of guarded points, peer writes and caller returns is written as a trace for spec/trace/Trace_Rpc.tla
+pub fn run_free(args: &[String]) -> i32 {
+    // rpc-free <seed> <rounds> <calls-per-round> <trace-dir>
+    use rand::rngs::StdRng;
+    use rand::{Rng, SeedableRng};
+    let seed: u64 = args[0].parse().unwrap_or(1);
+    let rounds: usize = args[1].parse().unwrap_or(3);
+    let per: usize = args[2].parse().unwrap_or(6);
+    let dir = args[3].clone();
+    let rt = tokio::runtime::Builder::new_multi_thread().worker_threads(4).enable_all().build().expect("rt");
+    let mut summary = NdWriter::create(&format!("{dir}/free_summary.ndjson"));
+    rt.block_on(async {
+        let sched = AsyncSched::install();
+        sched.only(&["rpc.", "rx."]);
+        sched.set_free_run(true);
+        let listener = TcpListener::bind("127.0.0.1:0").await.expect("bind");
+        let (epmd_port, _epmd) = fake_epmd(listener.local_addr().unwrap().port()).await;
+        verif::set_epmd_port(epmd_port);
+        for round in 0..rounds {
+            let mut node = Node::new(NODE, COOKIE);
+            if node.start(0).await.is_err() {
+                summary.put(&json!({"tool_error": "node start"}));
+                return;
+            }
+            let node = Arc::new(node);
+            // the peer: accepts, then answers every request according to a seeded policy
+            let acc = async {
+                let (s, _) = listener.accept().await.ok()?;
+                accept_handshake(s, PEER, PEER_FLAGS).await
+            };
+            let (pc, r) = tokio::join!(acc, node.connect(PEER));
+            let (Some(pc), Ok(())) = (pc, r) else {
+                summary.put(&json!({"tool_error": "connect"}));
+                return;
+            };
+            sched.take_log();
+            let (mut rd, wr) = (pc.rd, pc.wr);
+            let wr = Arc::new(tokio::sync::Mutex::new(wr));
+            let s2 = sched.clone();
+            let mut rng = StdRng::seed_from_u64(seed.wrapping_mul(1000).wrapping_add(round as u64));
+            let policies: Vec<u32> = (0..per).map(|_| rng.random_range(0..10)).collect();
+            let delays: Vec<u64> = (0..per).map(|_| rng.random_range(0..20)).collect();
+            let peer = tokio::spawn(async move {
+                let mut k = 0usize;
+                while let Some(f) = read_dist_frame(&mut rd).await {
+                    if f.is_empty() {
+                        continue;
+                    }
+                    let Ok((OwnedTerm::Tuple(ctl), _)) = erltf::decoder::decode_with_trailing(&f[1..]) else { continue };
+                    let Some(OwnedTerm::Pid(from)) = ctl.get(1).cloned() else { continue };
+                    let policy = policies.get(k).copied().unwrap_or(0);
+                    let delay = delays.get(k).copied().unwrap_or(0);
+                    k += 1;
+                    let wr = wr.clone();
+                    let s3 = s2.clone();
+                    tokio::spawn(async move {
+                        let send = |to: ExternalPid, kind: i64, tag: &'static str| {
+                            let wr = wr.clone();
+                            let s3 = s3.clone();
+                            let own = from.clone();
+                            async move {
+                                let control = OwnedTerm::Tuple(vec![OwnedTerm::Integer(2), OwnedTerm::Atom(Atom::new("")), OwnedTerm::Pid(to)]);
+                                let msg = OwnedTerm::Tuple(vec![OwnedTerm::Atom(Atom::new("rex")), OwnedTerm::Tuple(vec![OwnedTerm::Integer(own.id as i64), OwnedTerm::Integer(kind)])]);
+                                let body = pass_through(&control, Some(&msg));
+                                let mut g = wr.lock().await;
+                                // logged under the write lock: the order of these entries is the order on the wire
+                                s3.note("peer", "peer_reply", format!("{tag}:{}.{}.{}", own.id, own.serial, own.creation));
+                                let _ = write_dist_frame(&mut g, &body).await;
+                            }
+                        };
+                        let stale = ExternalPid::new(from.node.clone(), from.id, from.serial, from.creation.wrapping_add(1));
+                        let stray = ExternalPid::new(from.node.clone(), 999_999, 0, from.creation);
+                        tokio::time::sleep(Duration::from_millis(delay)).await;
+                        match policy {
+                            0..=4 => send(from.clone(), 0, "own").await,
+                            5 => {}
+                            6 => {
+                                tokio::time::sleep(Duration::from_millis(150)).await;
+                                send(from.clone(), 0, "own").await
+                            }
+                            7 => {
+                                send(from.clone(), 0, "own").await;
+                                send(from.clone(), 0, "own").await
+                            }
+                            8 => {
+                                send(stray, 2, "stray").await;
+                                send(from.clone(), 0, "own").await
+                            }
+                            _ => {
+                                send(stale, 1, "stale").await;
+                                send(from.clone(), 0, "own").await
+                            }
+                        }
+                    });
+                }
+            });
+            // the callers: all at once
+            let mut hs = Vec::new();
+            for k in 0..per {
+                let n = node.clone();
+                let s4 = sched.clone();
+                let actor = format!("c{}", k + 1);
+                hs.push(tokio::spawn(ACTOR.scope(actor.clone(), async move {
+                    let r = n.rpc_call_raw_with_timeout(PEER, "m", "f", vec![OwnedTerm::Integer(k as i64)], Duration::from_millis(80)).await;
+                    let d = match &r {
+                        Ok(OwnedTerm::Tuple(e)) if e.len() == 2 => match &e[1] {
+                            OwnedTerm::Tuple(v) if v.len() == 2 => format!("ok:{}:{}", denote(&v[0])["mag"][0].as_i64().unwrap_or(0) + 256 * denote(&v[0])["mag"][1].as_i64().unwrap_or(0) + 65536 * denote(&v[0])["mag"][2].as_i64().unwrap_or(0), denote(&v[1])["mag"][0].as_i64().unwrap_or(0)),
+                            _ => "ok:?".to_string(),
+                        },
+                        Ok(_) => "ok:?".to_string(),
+                        Err(e) => {
+                            let e = format!("{e:?}");
+                            if e.contains("RpcTimeout") { "timeout".into() } else { format!("error:{}", e.chars().take(60).collect::<String>()) }
+                        }
+                    };
+                    s4.note(&actor, "return", d);
+                })));
+            }
+            for h in hs {
+                let _ = h.await;
+            }
+            // let late replies arrive and be routed
+            tokio::time::sleep(Duration::from_millis(260)).await;
+            let pending = node.verif_pending_rpcs();
+            let log = sched.take_log();
+            peer.abort();
+            let path = format!("{dir}/free_log_{round}.ndjson");
+            let mut w = NdWriter::create(&path);
+            for e in log.iter() {
+                w.put(e);
+            }
+            w.finish();
+            summary.put(&json!({"round": round, "log": path, "pending_after": pending, "calls": per}));
+            // the node is dropped; its connection with it
+        }
+        sched.uninstall();
+    });
+    summary.finish();
+    0
+}
+
 pub fn run(args: &[String]) -> i32 {
     // rpc-run <scenarios.ndjson> <out.ndjson>
     let scenarios = read_ndjson(&args[0]);
